@@ -19,6 +19,8 @@ func main() {
 		name, text = "Morton.lean", trMorton(filepath.Join(repo, "morton", "morton.go"))
 	case "flags":
 		name, text = "Flags.lean", trFlags(repo)
+	case "lineint":
+		name, text = "Lineint.lean", trLineInt(repo)
 	case "arith":
 		name, text = "Arith.lean", trArith(repo)
 	case "skel":
